@@ -16,6 +16,8 @@ elif [ "${ROUND:-1}" = 5 ]; then
   SRC="/tmp/w5_$P/mutation/m$K"; TAG="r5m$K"
 elif [ "${ROUND:-1}" = 6 ]; then
   SRC="/tmp/w6_$P/mutation/m$K"; TAG="r6m$K"
+elif [ "${ROUND:-1}" = 7 ]; then
+  SRC="/tmp/w7_$P/mutation/m$K"; TAG="r7m$K"
 else
   SRC="/tmp/wt_$P/mutation/m$K"; TAG="m$K"
 fi
